@@ -33,6 +33,13 @@ LEVEL_NOTE = "Proof (grammar soundness/completeness, numbers, gating) + correspo
 I32 = 2**31 - 1
 BAD = [2**31, 2**32 - 1, 2**32, 2**32 + 1, 2**63, 2**64 + 1, 10**40, 0, 1, 2, 3, 4, 7, 9, 90, 91, 92, 100]
 
+def bad_number(rng):
+    """a number outside its field: the fixed boundary values, or one that is k*2^64 (or 2^63) plus/minus a small amount, with either sign —
+    the values an accumulator that wraps instead of saturating turns into small legal numbers"""
+    if rng.random() < 0.6: return rng.choice(BAD)
+    v = rng.choice([2**63, 2**64, 2**64, 2 * 2**64, 3 * 2**64, 4 * 2**64]) + rng.choice([-1, 1]) * rng.choice([0, 1, 2, 5, 7, 2**31 - 1, 2**31, rng.randint(0, 2**32)])
+    return v if rng.random() < 0.6 else -v
+
 def gen_step(rng, ext, toks):
     def N(*xs): toks.extend(("n", int(x)) for x in xs)
     def atom(): return rng.choice([1, 2, 3, 4, 5, 9, I32, rng.randint(1, I32)])
@@ -92,7 +99,7 @@ def mutate(rng, toks):
     idx = [i for i, t in enumerate(toks) if t[0] == "n"]
     if not idx: return toks
     i = rng.choice(idx); k = rng.random(); t = list(toks)
-    if k < 0.5: t[i] = ("n", rng.choice(BAD))
+    if k < 0.5: t[i] = ("n", bad_number(rng))
     elif k < 0.65: t[i] = ("n", max(0, t[i][1] + rng.choice([1, -1])))
     elif k < 0.8: t = t[:i]
     elif k < 0.9: del t[i]
